@@ -689,7 +689,10 @@ class Engine(object):
                 if isinstance(v, property):
                     return v.fget(self, obj)
                 return v
-            raise Raised(AttributeError, ("%r has no attribute %r" % (obj, name),))
+            if name.startswith("__") or obj._attrs.get("__open__"):
+                raise Raised(AttributeError, ("%r has no attribute %r" % (obj, name),))
+            # the abstract view has no contract for this attribute: undecided, never a verdict
+            raise Unsupported("abstract object %s has no contract for attribute %r" % (obj._name, name))
         if isinstance(obj, Sym):
             return SymMethod(obj, name)
         if isinstance(obj, SymExc):
